@@ -87,6 +87,64 @@ pub struct World {
     pub omit_silent: bool,
     /// Names appended to every node list (ghosts, the querier's own id, router addresses...).
     pub extra_names: Vec<(Id, SocketAddr)>,
+    /// Probability (per reply) that a responder appends adversarial entries built around the
+    /// queried target: one id under two addresses, the id farthest from the target (its bitwise
+    /// complement) and its neighbours, the target itself, all-zero / all-one ids. The addresses
+    /// belong to nobody. 0 = honest lists.
+    pub hostile_lists: f64,
+}
+
+/// Adversarial node-list entries around `target` (see `World::hostile_lists`); `salt` varies them.
+pub fn hostile_entries(target: &Id, salt: u32, v6: bool) -> Vec<(Id, SocketAddr)> {
+    let ghost = |n: u32| -> SocketAddr {
+        let n = salt.wrapping_mul(8).wrapping_add(n);
+        if v6 {
+            crate::simnet::v6(0x99, n as u64 + 1, 9000 + (n % 500) as u16)
+        } else {
+            crate::simnet::v4(99, (n >> 16) as u8, (n >> 8) as u8, n as u8, 9000 + (n % 500) as u16)
+        }
+    };
+    let mut far = *target;
+    for b in far.iter_mut() {
+        *b = !*b;
+    }
+    let mut far2 = far;
+    far2[19] ^= 1;
+    let mut near = *target;
+    near[19] ^= (salt % 7) as u8;
+    let mut out = Vec::new();
+    match salt % 6 {
+        0 => {
+            out.push((far, ghost(0)));
+            out.push((far, ghost(1)));
+        }
+        1 => {
+            out.push((far2, ghost(0)));
+            out.push((far, ghost(1)));
+            out.push((far, ghost(2)));
+            out.push((far2, ghost(3)));
+        }
+        2 => {
+            out.push((*target, ghost(0)));
+            out.push((*target, ghost(1)));
+        }
+        3 => {
+            out.push(([0u8; 20], ghost(0)));
+            out.push(([0xffu8; 20], ghost(1)));
+            out.push(([0u8; 20], ghost(2)));
+        }
+        4 => {
+            out.push((near, ghost(0)));
+            out.push((near, ghost(1)));
+            out.push((far, ghost(2)));
+        }
+        _ => {
+            for k in 0..6 {
+                out.push((far, ghost(k)));
+            }
+        }
+    }
+    out
 }
 
 /// Tagged peer address: identifies (reply sequence number, index within the reply).
@@ -144,6 +202,7 @@ impl World {
             keep_served: true,
             omit_silent: false,
             extra_names: Vec::new(),
+            hostile_lists: 0.0,
         }
     }
 
@@ -222,6 +281,14 @@ impl World {
                         .into_iter()
                         .map(|i| (w.nodes[i].id, w.nodes[i].addr))
                         .chain(w.extra_names.iter().filter(|(_, a)| a.is_ipv6() == v6).copied())
+                        .chain(
+                            // cheap deterministic coin from the reply sequence number
+                            if w.hostile_lists > 0.0 && ((seq.wrapping_mul(2654435761) >> 8) % 1000) as f64 / 1000.0 < w.hostile_lists {
+                                hostile_entries(target, seq, v6)
+                            } else {
+                                Vec::new()
+                            },
+                        )
                         .collect()
                 };
                 match q {
